@@ -2,4 +2,10 @@
 EXTENDS Container
 MCStores == {"old", "A", "B", "C"}
 MCSize == [s \in MCStores |-> IF s \in {"A", "B"} THEN 1 ELSE IF s = "C" THEN 2 ELSE 0]   \* A and B have the same size
+\* every layout of 1..MaxLen segments over the five kinds with at most one manifest container (ids = positions, so
+\* segments are distinguishable); replaces the three hand-picked Layouts in the *_all configurations
+MCMaxLen == 5
+MCKinds == {"head", "media", "meta", "tail", "c2pa"}
+MCLayoutsAll == UNION { { [i \in 1..n |-> Seg(k[i], IF k[i] = "c2pa" THEN "old" ELSE i)] :
+                            k \in { f \in [1..n -> MCKinds] : Cardinality({i \in 1..n : f[i] = "c2pa"}) <= 1 } } : n \in 1..MCMaxLen }
 ====
